@@ -808,11 +808,20 @@ func ruleStmtOrder(c *Ctx, rule string) {
 }
 
 // onlyChainAppends: the slice value is built from an empty slice by appending only *InjectorChainStmt elements.
-func onlyChainAppends(v ssa.Value, seen map[ssa.Value]bool) (bool, string) {
+func onlyChainAppends(L *Loaded, v ssa.Value, seen map[ssa.Value]bool) (bool, string) {
 	if seen[v] {
 		return true, ""
 	}
 	seen[v] = true
+	// the list handed through a private helper (as an argument, or back as one of its results)
+	if vs, ok := threaded(L, v); ok {
+		for _, w := range vs {
+			if ok, why := onlyChainAppends(L, w, seen); !ok {
+				return false, why
+			}
+		}
+		return true, ""
+	}
 	switch x := v.(type) {
 	case *ssa.MakeSlice:
 		return true, ""
@@ -830,14 +839,14 @@ func onlyChainAppends(v ssa.Value, seen map[ssa.Value]bool) (bool, string) {
 		return x.Value == nil, "constant"
 	case *ssa.Phi:
 		for _, e := range x.Edges {
-			if ok, why := onlyChainAppends(e, seen); !ok {
+			if ok, why := onlyChainAppends(L, e, seen); !ok {
 				return false, why
 			}
 		}
 		return true, ""
 	case *ssa.Call:
 		if bi, ok := x.Common().Value.(*ssa.Builtin); ok && bi.Name() == "append" {
-			if ok, why := onlyChainAppends(x.Common().Args[0], seen); !ok {
+			if ok, why := onlyChainAppends(L, x.Common().Args[0], seen); !ok {
 				return false, why
 			}
 			elems, ok := variadicElems(x.Common().Args[1])
@@ -878,7 +887,7 @@ func ruleSpawnFirst(c *Ctx, rule string) {
 		if ok {
 			if bi, isB := call.Common().Value.(*ssa.Builtin); isB && bi.Name() == "append" && len(call.Common().Args) == 2 {
 				if _, isLit := variadicElems(call.Common().Args[1]); !isLit {
-					okC, w := onlyChainAppends(call.Common().Args[0], map[ssa.Value]bool{})
+					okC, w := onlyChainAppends(L, call.Common().Args[0], map[ssa.Value]bool{})
 					okShape, why = okC, "result = append(<goroutine statements>, <main-thread statements>...); "+w
 				} else {
 					why = "the final append adds single elements, not the main-thread list"
@@ -917,7 +926,11 @@ func rulePoolPredicate(c *Ctx, rule string) {
 				"a pool becomes a goroutine exactly when its first provider is Async (the test findOptimalPool and the wait computation assume)", term)
 		}
 	}
-	for _, b := range fn.Blocks {
+	var blocks []*ssa.BasicBlock
+	for _, g := range chainBuilders(L, fn) {
+		blocks = append(blocks, g.Blocks...)
+	}
+	for _, b := range blocks {
 		if len(b.Instrs) == 0 {
 			continue
 		}
